@@ -72,9 +72,22 @@ def gen_pair(rng, wiring=None):
         c2 = contract(i2, o2, i2)
         if conn and rng.random() < 0.8 and not c2["a"]:
             c2["a"] = _terms(rng, i2, 1, p, special=conn, need=conn)
+        if conn and rng.random() < 0.5:
+            # several consumer assumptions over the connected variable (each could "help" refine the other)
+            c2["a"] = c2["a"] + _terms(rng, i2, rng.randint(1, 2), p, special=conn, need=conn)
     if wiring == "cascade_rev":
         c1, c2 = c2, c1
     return wiring, c1, c2
+
+
+def exact_safe_pair(c1, c2, quotient=False):
+    """every term mentions at most one variable that gets eliminated: the tactics' float arithmetic is then exact
+    (power-of-two pivots); otherwise cancellations may differ between floats and rationals (oracle only)"""
+    if quotient:
+        conn = (set(c1["o"]) & set(c2["o"])) | (set(c1["i"]) & set(c2["i"])) | set(c1["o"]) | set(c2["i"])
+    else:
+        conn = set(c1["o"]) & set(c2["i"]) | set(c2["o"]) & set(c1["i"])
+    return all(sum(1 for v in t[0] if v in conn) <= 1 for c in (c1, c2) for t in c["a"] + c["g"])
 
 
 def overlap_guarantees(rng, c1, c2):
